@@ -103,6 +103,9 @@ func (szr *Sizer) GetAt(values map[string]string, idx uint16) (map[string]string
 				return nil, fmt.Errorf("no more values in index")
 			}
 			c := szr.crsrs[idx]
+			if c > uint32(len(v)) {
+				return nil, fmt.Errorf("page cursor %v beyond sink content length %v", c, len(v))
+			}
 			v = v[c:]
 			nl := strings.Index(v, "\n")
 			if nl > 0 {
